@@ -354,6 +354,18 @@ class LibHarness(Harness):
                 ctx.law('C01.front-matter-kept', of['metadata:' + k] == (dm[0] if dm else None), dict(info, note=k, graph_metadata=of['metadata:' + k], document=dm, graph='fresh'))
                 ctx.law('C01.front-matter-kept', oi['metadata:' + k] == (dm[0] if dm else None), dict(info, note=k, graph_metadata=oi['metadata:' + k], document=dm, graph='incremental'))
                 if dm: ctx.cover('front-matter')
+            # ---- C06: link titles on the incrementally updated graph are those of the current documents
+            cur_titles = {}
+            for k, tok_ in texts.items():
+                first = [b for b in self.cur_docs[tok_][0] if b['k'] != 'Meta'][:1]
+                cur_titles[k] = h_doc.inl_text_neutral(first[0]) if first and first[0]['k'] == 'Header' else None
+            for k in sorted(texts):
+                for (tgt, text, orig) in tree_links(oi['tree:' + k]):
+                    t = resolve(tgt, k)
+                    if t in cur_titles and cur_titles[t] is not None:
+                        ctx.law('C06.title-refreshed-from-resolved-note', text == cur_titles[t], dict(info, note=k, target=t, text=text, expected=cur_titles[t], graph='incremental'))
+                    elif t in cur_titles:
+                        ctx.law('C06.text-kept-when-target-has-no-title', text in ('x',) or text.startswith('T'), dict(info, note=k, target=t, text=text, graph='incremental'))
             # ---- C05 / H5: backlinks vs independent scan of the documents (fresh graph = what a restart would answer)
             self.backlink_laws(ctx, of, texts, info, 'fresh')
             self.backlink_laws(ctx, oi, texts, info, 'incremental')
@@ -522,6 +534,30 @@ class LibHarness(Harness):
         v['replay_verdict'] = 'native get_node_id_at agrees on lines tried'
         return False
 
+def tree_links(t):
+    """(url/key, visible text, None) of every Regular link or reference in a collected tree"""
+    out = []
+    def inl(xs):
+        for i in xs:
+            if i.get('_v') == 'Link':
+                f = i['_f']
+                if f[2]['_v'] == 'Regular' and not is_external(f[0]):
+                    out.append((f[0], h_doc.inl_text(f[3]), None))
+            elif isinstance(i.get('_0'), list):
+                inl(i['_0'])
+    def walk(n):
+        nd = n['node']
+        if nd.get('_v') == 'Reference':
+            r = nd['_0']
+            if r['reference_type']['_v'] == 'Regular':
+                out.append((r['key']['relative_path'], r['text'], None))
+        elif nd.get('_v') in ('Section', 'Leaf'):
+            inl(nd['_0'])
+        for c in n['children']:
+            walk(c)
+    walk(t)
+    return out
+
 def jsonable_cmp(x):
     import json
     return json.dumps(x, sort_keys=True, default=str)
@@ -544,11 +580,14 @@ def render_neutral(blocks, indent=''):
             elif i['k'] == 'Emph': parts.append('*[x](%s)*' % i['c'][0]['url'])
         return ''.join(parts)
     front = ''
+    prev_kind = None
+    last_k = None
     for b in blocks:
         k = b['k']
         if k == 'Meta':
             front = '---\n' + b['t'] + '---\n\n'
             continue
+        prev_kind, last_k = last_k, k
         if k == 'Header': out.append('#' * b.get('lv', 1) + ' ' + inl(b))
         elif k == 'Para': out.append(inl(b))
         elif k == 'Ref': out.append('[%s](%s)' % (b['t'], b['url']))
@@ -557,6 +596,8 @@ def render_neutral(blocks, indent=''):
         elif k == 'Rule': out.append('---')
         elif k == 'Quote': out.append('\n'.join('> ' + l for l in render_neutral(b['c']).rstrip('\n').split('\n')))
         elif k == 'Bullet':
+            if prev_kind == 'Bullet':
+                out.append('<!-- -->')          # an HTML block (dropped by the reader) keeps two adjacent lists apart
             items = []
             for it in b['items']:
                 body = render_neutral(it).rstrip('\n').split('\n')
